@@ -8,13 +8,30 @@ import (
 	"strconv"
 	"strings"
 
+	"gmqverif/harness/hx"
+
 	"github.com/valinurovam/garagemq/amqp"
 	"github.com/valinurovam/garagemq/safequeue"
 )
 
-func init() {
-	cmds["safequeue"] = cmdSafeQueue
-	cmds["safequeue-replay"] = cmdSafeQueueReplay
+func main() {
+	if len(os.Args) < 2 {
+		fmt.Fprintln(os.Stderr, "usage: safequeue run|replay ...")
+		os.Exit(2)
+	}
+	var err error
+	switch os.Args[1] {
+	case "run":
+		err = cmdSafeQueue(os.Args[2:])
+	case "replay":
+		err = cmdSafeQueueReplay(os.Args[2:])
+	default:
+		err = fmt.Errorf("unknown sub-command %s", os.Args[1])
+	}
+	if err != nil {
+		fmt.Fprintln(os.Stderr, "error:", err)
+		os.Exit(2)
+	}
 }
 
 // op syntax: P<n> push, H<n> push-head, O pop, I head-item, L length, X purge
@@ -62,16 +79,16 @@ func safeRun(sz int, ops []string) (outs []string, panicked string) {
 	return runSafeQueueOps(sz, ops), ""
 }
 
-func genSafeQueueOps(r *rng, sz int, n int) []string {
+func genSafeQueueOps(r *hx.Rng, sz int, n int) []string {
 	ops := make([]string, 0, n)
 	next := uint64(1)
 	// phases bias the mix so that depth grows over several shards and shrinks again
-	bias := r.intn(4)
+	bias := r.Intn(4)
 	for i := 0; i < n; i++ {
-		if r.chance(1, 12) {
-			bias = r.intn(4)
+		if r.Chance(1, 12) {
+			bias = r.Intn(4)
 		}
-		k := r.intn(100)
+		k := r.Intn(100)
 		var pPush, pHead, pPop int
 		switch bias {
 		case 0:
@@ -97,7 +114,7 @@ func genSafeQueueOps(r *rng, sz int, n int) []string {
 		case k < pPush+pHead+pPop+9:
 			ops = append(ops, "L")
 		default:
-			if r.chance(1, 3) {
+			if r.Chance(1, 3) {
 				ops = append(ops, "X")
 			} else {
 				ops = append(ops, "I")
@@ -159,13 +176,13 @@ func cmdSafeQueue(args []string) error {
 			enumSafeQueue(*exh, func(ops []string) { emit(sz, ops) })
 		}
 	}
-	r := newRng(*seed)
+	r := hx.NewRng(*seed)
 	for i := 0; i < *n; i++ {
-		sz := 1 + r.intn(5)
-		if r.chance(1, 10) {
-			sz = 6 + r.intn(10)
+		sz := 1 + r.Intn(5)
+		if r.Chance(1, 10) {
+			sz = 6 + r.Intn(10)
 		}
-		l := 5 + r.intn(*maxLen)
+		l := 5 + r.Intn(*maxLen)
 		emit(sz, genSafeQueueOps(r, sz, l))
 	}
 	return nil
